@@ -11,7 +11,7 @@ COMMON_ASSUME = ['the model corresponds to the code only as far as the generated
 class C03(Prop):
     pid = 'C03'
     k_fields = ['R']
-    o_fields = ['det']
+    o_fields = ['det', 'rebind']
     k_is_o = True
     rule = ('17 operators in unary, binary and ternary position over 59 operand descriptors (44 boundary values of every kind, defined/undefined '
             'variables, failing/missing/echoing/constant calls), failing elements at every position of arrays and argument lists, all pairs of 33 signed numbers (whole, fractional, tiny, huge, signed zeros, non-finite) '
@@ -21,7 +21,7 @@ class C03(Prop):
     assumptions = COMMON_ASSUME
 
     def gen(self, tier, R):
-        return [(c, 'release') for c in trees.gen_eval(tier, R)]
+        return [(c, 'release') for c in trees.gen_eval(tier, R)] + [(c, 'release') for c in trees.gen_rebind(tier, R)]
 
 
 class C04(C03):
@@ -168,7 +168,7 @@ class C07(Prop):
 
 class C12(Prop):
     pid = 'C12'
-    k_fields = ['J', 'RV']
+    k_fields = ['J', 'RV', 'E']   # E: the tree after optimize (program cases only)
     o_fields = ['roundtrip']
     trusted_extra = ["serde's derive output and serde_json (feature float_roundtrip) text layer: sampled, not proved"]
     rule = ('every operator in unary/binary/ternary position over literals of every kind (boundary doubles, NaN, +-inf, nested array literals) and odd '
@@ -180,7 +180,11 @@ class C12(Prop):
     def gen(self, tier, R):
         return [(c, 'release') for c in misc.gen_ser(tier, R)]
 
-    def known(self, line, k, o):
+    def known(self, line, k, o, mk=None):
+        if line.startswith('(serscript ') and mk and 'NF=' in mk:
+            # a program: whether a non-finite literal arises in it is decided by the definition (the model's optimizer), not by what the implementation happened to produce -
+            # an optimizer that starts to emit such literals for programs that had none is a new failure, not the recorded one
+            return 'nonfinite_literal' if 'NF=true' in mk else None
         if misc.has_nonfinite(line) or o.get('nonfinite') == 'true':
             return 'nonfinite_literal'
         return None
@@ -297,7 +301,7 @@ class C13(Prop):
     # what the known finding can explain: failures of transitivity and of the laws that presuppose it - nothing else
     EXPLAINED = ('transitive', 'bound_all_others', 'greater_than_its_successor', 'sorting_again')
 
-    def known(self, line, k, o):
+    def known(self, line, k, o, mk=None):
         from . import reford
         el = core.top_elems(line)
         if not el:
@@ -347,7 +351,7 @@ class C09(Prop):
         out += [(c, v) for v in ('release', 'debug') for c in extra]
         return out
 
-    def known(self, line, k, o):
+    def known(self, line, k, o, mk=None):
         el = core.top_elems(line)
         if k is not None and 'PANIC' in k:
             if el and el[0] == 'bi' and el[3] == core.s('sort') and builtins.is_nontame_arr(el[4:]):
@@ -394,7 +398,7 @@ class C14(Prop):
         out += [(c, 'release') for c in builtins.gen_composite_scripts(tier, R, 1)]
         return out
 
-    def known(self, line, k, o):
+    def known(self, line, k, o, mk=None):
         el = core.top_elems(line)
         if el and el[0] in ('bi', 'foldcall'):
             args = el[4:] if el[0] == 'bi' else el[3:]
